@@ -19,6 +19,51 @@ CLAIMS = {
     note="Trusted: correspondence between Flags::parse_from/TryFrom<Vec<bool>> and decFlags/flagsFields is by differential testing (every single unknown position over 1..4 continuation bytes + random).",
     technique="Lean 4 theorems (induction over flag bytes) + dops-stream correspondence",
     ref="7/C16"),
+  "C08": dict(
+    text="Lean 4 theorems over an operational model of Decompressor with the code's commit points explicit (with_reader commits only on Ok but keeps closure mutations; dirty batch decode wrapped by snapshot/restore; simple_decompress wrapped by snapshot/restore): every operation that answers an error leaves the state equal (6 theorems), next answering none leaves the state equal under a proved reachable-state invariant (preserved by all operations), all protocol violations answer InvalidArgument with the state unchanged, terminated is set only by the footer. Tie: random call interleavings over valid and corrupted files compared token by token (results, error kinds, bit_idx) with the model; direct oracles on the implementation: Debug rendering identical before/after every failed call, twin run without the failed calls, retry after writing the missing bytes.",
+    note="The model (lean/Qco/Op/Decomp.lean) is hand-written from decompressor.rs/num_decompressor.rs/chunk_body_decompressor.rs and tied by the dops correspondence stream; word-level bit packing is modelled as a bit list.",
+    technique="Lean 4 theorems on an operational state-machine model + dops-stream correspondence + Debug-hash/twin-run oracles",
+    ref="7/C08"),
+  "C09": dict(
+    text="Lean 4 theorems over an operational model of Compressor: acceptance of each call characterised exactly (iff) — header chunk* footer, empty/oversized chunk, level>12, order>7 rejected as error values with the state unchanged; accepted calls append exactly encHeader/encChunk/footer; for every history (any interleaving of accepted, rejected calls and drains) the total output is header ++ accepted chunks ++ footer, is invariant under removing/inserting drains, equals encodeFile of exactly the accepted chunks when complete and decodes (file-level round trip theorem). Tie: random call sequences incl. 2^24-element chunks; results, byte_size and drained bytes compared with the model re-encoding the observed metadata; final bytes decoded by both decoders.",
+    note="Training is an argument of the model's chunk call (observed metadata + greedy grouping); its truthfulness is C10/C18.",
+    technique="Lean 4 theorems on an operational compressor model + cops-stream correspondence",
+    ref="7/C09"),
+  "C10": dict(
+    text="Lean 4: the decidable predicate WFc evaluated on every observed ChunkMetadata means exactly the property's statement (bounds, pairwise disjoint, unique cover, counts = members, congruence mod divisor, complete prefix-free tree, <= 2^level leaves), moments = initial differences; the quantile-cut stage tiles [0,n) cutting only between distinct values for every input (loop invariant proof). Tie: on every chunk of the enc stream the model evaluates WFc against the chunk's numbers/deltas, returned == parsed metadata, body size == spec-encoded length.",
+    note="Merge DP and Huffman construction are not modelled; their output is checked per instance by WFc (so a wrong merge/Huffman is detected on explored inputs, not excluded for all inputs).",
+    technique="Lean 4 theorems (meaning of the evaluated predicate, quantile-cut invariant) + enc-stream evaluation",
+    ref="7/C10"),
+  "C11": dict(
+    text="Lean 4: header + any list of a well-formed file's chunks (any sub-sequence, order, repetition) + footer decodes to exactly those chunks; the compressor model's chunk bytes are the same function of (config, trained chunk) in every history; skip_chunk_body advances by exactly the remaining body bits, lands on the next chunk from the metadata alone, also after part of the body was streamed; metadata-then-skip over n chunks lands behind all of them. Tie: same chunk first/last/alone/with drains/16 threads/second process byte-identical; all 2^n sub-sequences of real files through both decoders; random skip/decode choices compared with the model.",
+    note="Determinism of training across runs/threads is exercised (it is the tie for the model's purity), not proved.",
+    technique="Lean 4 theorems (compositional round trip, skip arithmetic) + cops/dops correspondence + determinism oracles",
+    ref="7/C11"),
+  "C13": dict(
+    text="Lean 4: the order chooser model is total and for any list of trial sizes (any search outcome) returns an order that was tried, <= 7 for the 8 candidates; empty input is answered 0 before any trial; tunables regenerated from source. Tie: auto_compressor_config/auto_compress/auto_decompress under catch_unwind for every dtype, lengths 0..9/999/1000/1001, levels 0..12: no panic, level kept, order in 0..7, round trip; trial sizes reproduced through the public API and fed to the model, chosen order compared.",
+    note="That trial compressions cannot fail is C09's acceptance theorem instantiated (non-empty head, level <= 6).",
+    technique="Lean 4 theorems on the chooser model + auto-stream correspondence",
+    ref="7/C13"),
+  "C14": dict(
+    text="Lean 4 (28 theorems): exact/upper bounds of every encoder piece for every well-formed file: offset <= k+1 <= W bits, varint <= 48 bits, file overhead 7 bytes, count field <= 24 bits, prefix metadata <= 67+3W bits, chunk metadata bound, Kraft feasibility of the reference code for pairwise disjoint ranges (from disjointB), and the *conditional* body bound: if total code bits <= total reference-code bits (+c per number) then body <= n(W+1+c). Huffman optimality itself is NOT proved (hypothesis). Tie: exact body/metadata bits computed by the model from the observed table (equal to real sizes since the spec re-encoding reproduces the bytes) on adversarial distributions; the stated inequalities checked per instance. Known finding: bool delta moments take a byte each.",
+    note="partial: unbounded body claim is conditional on Huffman optimality and the run-length weight; per-instance evaluation covers explored inputs only.",
+    technique="Lean 4 size theorems + conditional bound + per-instance evaluation on the enc stream",
+    ref="7/C14"),
+  "C15": dict(
+    text="Lean 4 (12 theorems) over a step-by-step model of the conversions with fixed-width ranges explicit: for every representable SystemTime the (seconds, nanos) split never overflows; 64-bit conversion = floor(instant/ns_per_part) or InvalidArgument, never a panic or wrapped value; nanosecond round trip returns the same SystemTime, microsecond round trip the instant rounded down (also before the epoch); reverse direction for every i64; 96-bit: exact, always inside the documented range, out-of-range parts rejected by new/validate/TryFrom. Tie: ts stream (epoch +-, sub-second boundaries, 64-bit limits +-1, platform extremes, random 2^0..2^93 ns) both directions, every line compared with the model; direct oracle with independent integer arithmetic.",
+    note="std::time::SystemTime/Duration arithmetic is modelled (instant as an integer), not verified.",
+    technique="Lean 4 theorems (Int arithmetic, omega) on a step model + ts-stream correspondence",
+    ref="7/C15"),
+  "C17": dict(
+    text="partial. Lean 4: the CLI's glue loses/duplicates/reorders nothing: re-chunking of reader batches preserves the concatenation, never yields an empty chunk, chunks <= chunk_size for batches <= chunk_size; --limit k prints exactly the first k; inspect's sizes add up. Composed with C01 for the number-level identity. NOT modelled: Arrow CSV/Parquet parsing, number/timestamp formatting, structopt. Tie: CSV columns of 10 Arrow-backed dtypes through /repo's qcompress binary (compress with chunk sizes 1..>rows, levels, explicit/auto delta order, --disable-gcds; decompress [--limit k]; inspect vs the library's metadata walk and the glue model). Known finding: Arrow's CSV writer panics on pre-epoch fractional timestamps.",
+    note="Parquet input is not exercised (no Parquet writer available offline to the check); the text layers are covered by differential runs only.",
+    technique="Lean 4 glue theorems + differential runs of the real CLI binary",
+    ref="7/C17"),
+  "C18": dict(
+    text="Lean 4 (26 theorems): exactGcd is the greatest common divisor of the members' distances (divides, greatest), meaning of the evaluated gcdExact predicate incl. the escape to 1 only when the exact divisor does not fit the field and no common field is used, offsets recover members exactly; streaming delta reconstruction inverts n-th order wrapping differences for every order (incl. bool/xor), vanishing differences => all coded numbers equal => single empty-code prefix => zero body bits for any n; greedy runs are maximal, a run block on a single-valued range costs code + varint <= code + 48 bits for any length, the 90%/2000 premises imply the library's 80%/1001 run-length rule. Tie: enc stream on lattices (divisors near 2^49), sparse chunks (premises met in 40+ cases per run), vanishing-difference sequences for every dtype and order.",
+    note="partial for (2): the aggregate (W+8)*others+52*runs bound is evaluated per instance (it depends on Huffman code lengths); merge-stage GCD folding is checked per instance by gcdExact, not proved for the real merge code.",
+    technique="Lean 4 theorems (gcd folds, delta integration, run blocks) + enc-stream evaluation",
+    ref="7/C18"),
   "C12": dict(
     text="Lean 4 theorems for every data-type descriptor with >= 1 unsigned bit (hence all 15 generated rows): from_unsigned∘to_unsigned = id, to_unsigned∘from_unsigned = id, strict monotonicity w.r.t. the natural order (two's complement / sign-magnitude float order / false<true), signed and byte maps exact inverses, 96-bit range rejection, header bytes distinct (decide over the table regenerated from /repo), cross-type header rejected. Tie: table regenerated from source + map stream comparing the real NumberLike methods with the Lean maps on all 2^16 patterns of 16-bit types and boundary-dense patterns of the others.",
     note="Trusted: Lean kernel; regex extractor of the dtype table (checked equal to the frozen table by decide); the map correspondence is differential testing of the macro bodies (floats.rs, signeds.rs, ...) against the Lean maps.",
